@@ -15,7 +15,11 @@ Definition bind {A B} (r : result A) (f : A -> result B) : result B :=
   match r with ROk a => f a | RRaise e => RRaise e end.
 
 (* floats are CPython's own: a folded float is kept as the symbolic operation that produced it *)
-Inductive fexpr := FTrueDivInt (a b : Z).
+Inductive fexpr :=
+  | FTrueDivInt (a b : Z)                  (* the float CPython computes for int a / int b *)
+  | FLit (n : nat)                         (* some float literal *)
+  | FOfInt (z : Z)                         (* float(z) for an int that fits *)
+  | FBin (op : string) (a b : fexpr).      (* the float CPython computes for a <op> b *)
 Inductive val := VInt (z : Z) | VFloat (f : fexpr).
 
 (* result of a folding function: a value, "not folded" (Python None), or an escaping exception *)
@@ -114,6 +118,16 @@ Definition py_cmp_op (op : string) (c : comparison) : option bool :=
 Definition py_slice {A} (l : list A) (lo hi : Z) : list A :=
   firstn (Z.to_nat (hi - lo)) (skipn (Z.to_nat lo) l).
 
+(* Python tuple indexing t[i]: negative indexes count from the end; out of range = IndexError (None) *)
+Definition py_tuple_index (t : list Z) (i : Z) : option Z :=
+  let j := if i <? 0 then i + Z.of_nat (List.length t) else i in
+  if j <? 0 then None else nth_error t (Z.to_nat j).
+
+(* what contains_sys_version_info / contains_int_or_tuple_of_ints return (None is handled by the caller):
+   an int index or a (begin, end) pair of optional ints; an int or a tuple of ints *)
+Inductive vidx := IdxInt (i : Z) | IdxSlice (lo hi : option Z).   (* bare sys.version_info = IdxSlice None None *)
+Inductive thing := ThInt (k : Z) | ThTuple (t : list Z).
+
 (* sys.version_info at run time for target (major, minor): a 5-tuple
    (major, minor, micro, releaselevel, serial).  The last three are not determined by the
    configured target, so they are universally quantified in the theorems.  releaselevel is a
@@ -121,3 +135,65 @@ Definition py_slice {A} (l : list A) (lo hi : Z) : list A :=
    the first three (int) components are modelled, `rest` standing for the components after
    minor that are ints (micro) - enough for every literal tuple of ints of length <= 3. *)
 Definition runtime_version_info (major minor micro : Z) : list Z := [major; minor; micro].
+
+(* --- CPython float operations (Objects/floatobject.c): ERROR CONDITIONS only; the values stay symbolic ---------- *)
+(* an operand of a mixed int/float operation *)
+Inductive num := NInt (z : Z) | NFloat (f : fexpr).
+Inductive fsign := FZero | FNeg | FPos | FNan.
+Inductive pow_outcome := PowOk | PowOverflow | PowZeroDiv | PowComplex.
+(* what is not determined symbolically: the sign class of a float (x == 0, x < 0, x > 0; nan: none of them),
+   whether an int converts to a float (PyLong_AsDouble; else OverflowError "int too large to convert to float"),
+   and the outcome class of float_pow *)
+Record float_oracle := { fl_sign : fexpr -> fsign; fl_fits : Z -> bool; fl_pow : fexpr -> fexpr -> pow_outcome }.
+
+Definition to_float (fo : float_oracle) (n : num) : result fexpr :=
+  match n with
+  | NInt z => if fl_fits fo z then ROk (FOfInt z) else RRaise OverflowError
+  | NFloat f => ROk f
+  end.
+(* comparisons of an int or a float with the int 0 never convert the int *)
+Definition num_sign (fo : float_oracle) (n : num) : fsign :=
+  match n with
+  | NInt z => if z =? 0 then FZero else if z <? 0 then FNeg else FPos
+  | NFloat f => fl_sign fo f
+  end.
+Definition num_is_zero fo n : bool := match num_sign fo n with FZero => true | _ => false end.
+Definition num_lt0 fo n : bool := match num_sign fo n with FNeg => true | _ => false end.
+Definition num_gt0 fo n : bool := match num_sign fo n with FPos => true | _ => false end.
+Definition num_is_int (n : num) : bool := match n with NInt _ => true | NFloat _ => false end.
+Definition fsign_is_zero (s : fsign) : bool := match s with FZero => true | _ => false end.
+
+(* the Python expression `l <op> r` when at least one operand is a float (float_add, float_sub, float_mul: never raise;
+   float_div, float_floor_div, float_rem: ZeroDivisionError iff the divisor is zero; float_pow: see fl_pow; a complex
+   result (negative base, non-integral exponent) is carried as AssertionError, raised by the only consumer
+   `assert isinstance(ret, float)`, as for py_pow_int) *)
+Definition py_num_binop (fo : float_oracle) (op : string) (l r : num) : result fexpr :=
+  bind (to_float fo l) (fun a => bind (to_float fo r) (fun b =>
+    if String.eqb op "+" || String.eqb op "-" || String.eqb op "*" then ROk (FBin op a b)
+    else if String.eqb op "/" || String.eqb op "//" || String.eqb op "%" then
+      (if fsign_is_zero (num_sign fo r) then RRaise ZeroDivisionError else ROk (FBin op a b))
+    else if String.eqb op "**" then
+      match fl_pow fo a b with
+      | PowOk => ROk (FBin op a b) | PowOverflow => RRaise OverflowError
+      | PowZeroDiv => RRaise ZeroDivisionError | PowComplex => RRaise AssertionError
+      end
+    else RRaise TypeError)).
+
+(* contract on float_pow (monitored against CPython on boundary floats, not proved):
+   0.0 ** negative is the only ZeroDivisionError; a complex result needs a negative base and an exponent that is not
+   an int converted to float *)
+Definition pow_contract (fo : float_oracle) : Prop :=
+  (forall a b, fl_pow fo a b = PowZeroDiv -> fl_sign fo a = FZero) /\
+  (forall a b, fl_pow fo a b = PowComplex -> fl_sign fo a = FNeg /\ forall z, b <> FOfInt z) /\
+  (forall z, fl_fits fo z = true -> fl_sign fo (FOfInt z) = if z =? 0 then FZero else if z <? 0 then FNeg else FPos).
+
+(* --- str / bytes sequence operations (unicode_concatenate, unicode_repeat; bytes likewise) -------------- *)
+Fixpoint str_repeat_nat (s : string) (n : nat) : string :=
+  match n with O => EmptyString | S k => String.append s (str_repeat_nat s k) end.
+(* s * n: a non-positive count gives the empty sequence *)
+Definition py_str_repeat (s : string) (n : Z) : string := if n <=? 0 then EmptyString else str_repeat_nat s (Z.to_nat n).
+Fixpoint seq_repeat_nat {A} (l : list A) (n : nat) : list A :=
+  match n with O => [] | S k => l ++ seq_repeat_nat l k end.
+Definition py_bytes_repeat (l : list N) (n : Z) : list N := if n <=? 0 then [] else seq_repeat_nat l (Z.to_nat n).
+(* py_pow_int is total: for every l and r >= 0 it denotes the int l ^ r.  Nothing bounds its SIZE: the value has about
+   r * log2 |l| bits, so folding `18446744073709551617 ** 9223372036854775808` does not finish (recorded under C20). *)
